@@ -157,6 +157,13 @@ def case(cid, rng):
                 pp = KernelPCovR(mixing=a / 8.0, n_components=k, regressor="precomputed", center=center, svd_solver="full", tol=1e-12,
                                  **kargs(kp, full)).fit(X, Kmodel @ Wm, W=Wm.copy())
                 add_route("precomputed-regressor", pp.transform(X), pp.transform(Xv1))
+            # the other solvers (the truncated ones are exact here: the retained spectrum is separated - decided by the
+            # specification - and the random sketch spans these small kernels) and the default "auto"
+            for solver in ("arpack", "randomized", "auto"):
+                rsol = (KernelRidge(alpha=alpha, **kargs(kp, full)) if (regk == "krr-fitted" and center) else mkreg())     # as for the main model
+                ps = core.mk(KernelPCovR, mixing=a / 8.0, n_components=k, regressor=rsol, center=center, svd_solver=solver, tol=1e-12,
+                             random_state=0, **kargs(kp, full)).fit(X, Y1)
+                add_route("solver-" + solver, ps.transform(X), ps.transform(Xv1), ps.predict(X))
             if regk != "krr-fitted":
                 alpha_r = 1.0 if regk == "none" else alpha
                 pk = KernelPCovR(mixing=a / 8.0, n_components=k, kernel="precomputed", center=center, svd_solver="full", tol=1e-12,
